@@ -19,7 +19,13 @@ def main():
     if a.replay:
         rc = mod.replay(v, a.replay)
         sys.exit(rc)
-    mod.check(v)
+    try:
+        mod.check(v)
+    except Exception as e:   # a crash of the machinery is reported, never swallowed
+        import traceback
+        v.coverage.setdefault("evaluations", 0)
+        v.coverage.setdefault("distinct_nontrivial", 0)
+        v.violation("machinery", {"kind": "machinery-crash", "detail": traceback.format_exc()[-4000:]}, no_input=True)
     sys.exit(v.finish())
 
 
